@@ -95,10 +95,47 @@ func collectUnits(prog *Program, prop string) []*unit {
 	lemmaNeeded := map[string]bool{}
 	for _, key := range prog.cs.Order {
 		fc := prog.cs.Funcs[key]
-		if fc.Extern || !hasProp(fc.Props, prop) {
+		if fc.Extern {
 			continue
 		}
+		var also []AlsoProp
+		if !hasProp(fc.Props, prop) {
+			for _, ap := range fc.AlsoProps {
+				if hasProp(ap.Props, prop) {
+					also = append(also, ap)
+				}
+			}
+			if len(also) == 0 {
+				continue
+			}
+		}
 		vc, err := buildVCSafe(prog, key)
+		if err == nil && vc != nil && also != nil {
+			// clause-level membership: only the named clauses (and the safety sweep) count for this property
+			var keep []*Obl
+			for _, o := range vc.obls {
+				label := o.Anchor
+				if i := strings.LastIndex(label, ":"); i >= 0 {
+					label = label[i+1:]
+				}
+				ok := false
+				for _, ap := range also {
+					if ap.Labels[label] && o.Expect == "" {
+						ok = true
+					}
+					if ap.NoPanic && safetyKind(o.Kind) {
+						ok = true
+					}
+					if o.Kind == "unverified-callee" {
+						ok = true
+					}
+				}
+				if ok {
+					keep = append(keep, o)
+				}
+			}
+			vc.obls = keep
+		}
 		u := &unit{key: key, vc: vc}
 		if err != nil {
 			u.err = err.Error()
@@ -335,6 +372,15 @@ func cmdCheck(args []string) int {
 				continue
 			}
 			nObl++
+			if o.Kind == "unverified-callee" && base != nil && !inBase[o.Name] && !*writeBaseline {
+				// a function under contract now hands work to a function of this module that has no
+				// contract and did not do so when the baseline was recorded: modular proofs do not see
+				// what happens there, so what was proved about the caller no longer covers its behaviour
+				r.Status = "violated-unverified-callee"
+				violate(o.Name, "a function under contract for this property now calls "+o.Anchor+", a function of the module without a contract that it did not call on the committed baseline: its effects are outside the proof", "no-failing-input-found", o, vc)
+				reports = append(reports, r)
+				continue
+			}
 			if o.Result == "unsat" {
 				nDis++
 				bySolver[o.Solver]++
@@ -429,7 +475,12 @@ func cmdCheck(args []string) int {
 			rp := filepath.Join(replayDir, fmt.Sprintf("%s-%s.json", *prop, sanitizeFile(t.Name)))
 			writeJSON(rp, map[string]interface{}{"property": *prop, "obligation": t.Name, "verdict": "violated", "detail": t.Detail,
 				"replay": "ground obligation over literal tables extracted from the working tree; the failing entries are listed in detail"})
-			violations = append(violations, fmt.Sprintf("VIOLATION property=%s replay=%s", *prop, rp))
+			line := fmt.Sprintf("VIOLATION property=%s replay=%s", *prop, rp)
+			if strings.HasPrefix(t.Name, "writers/") || strings.HasPrefix(t.Name, "closers/") || strings.HasPrefix(t.Name, "updaters/") {
+				// a structural scan names the offending function, it has no failing input of its own
+				line += " no-failing-input-found"
+			}
+			violations = append(violations, line)
 			fmt.Printf("  failed table obligation: %s: %s\n", t.Name, t.Detail)
 		}
 		seen[t.Name] = true
